@@ -20,10 +20,16 @@ structure ParsePacket where
   params : List Bytes -- 4 bytes each
 deriving Repr, DecidableEq
 
+/-- a slice guarded by the bounds check the `fix:` added (`ErrPacketTruncated` instead of a panic) -/
+def chkSlice (b : Bytes) (lo hi : Nat) : Out Bytes :=
+  match goSlice b lo hi with
+  | .panic => .err
+  | r => r
+
 def readParams (data : Bytes) : Nat → Nat → Out (List Bytes)
   | 0, _ => .ok []
   | k+1, pos => do
-    let p ← goSlice data pos (pos + 4)
+    let p ← chkSlice data pos (pos + 4)
     let rest ← readParams data k (pos + 4)
     pure (p :: rest)
 
@@ -40,7 +46,7 @@ def newParsePacket (data : Bytes) : Out ParsePacket :=
       do
         let name ← goSlice data 0 start
         let query ← goSlice data start endIdx
-        let numParams ← goSlice data endIdx (endIdx + 2)
+        let numParams ← chkSlice data endIdx (endIdx + 2)
         let e2 := endIdx + 2
         let params ← if e2 < data.length then readParams data (beVal numParams) e2 else .ok []
         pure ⟨name, query, numParams, params⟩
